@@ -176,14 +176,15 @@ def explore(sc, max_states, res):
     seen = {tuple(C.dyn_of(envF, s0)): s0}
     queue = collections.deque([s0])
     acts = list(envF.action_space.actions) + [NoOp()]
-    toks = [C.act_tokens(sc, a) for a in acts]
+    toks = [C.def_tokens(sc, a) for a in acts]           # the actions as the scenario defines them
+    defprob = [float(C.Fraction(t[4])) if not isinstance(t[4], float) else t[4] for t in toks]
     queries, records, meta = [], [], []
     frame_log = []
     while queue:
         st = queue.popleft()
         d0 = C.dyn_of(envF, st)
-        for a, tk in zip(acts, toks):
-            for uval in placements(a.prob):
+        for a, tk, dp in zip(acts, toks, defprob):
+            for uval in sorted(set(placements(a.prob)) | set(placements(dp))):
                 rec, ns, info = impl_record(sc, envF, envP, st, a, uval, frame_log)
                 queries.append("Q " + " ".join(map(str, d0 + tk + [C.fr(uval)])))
                 records.append(rec)
@@ -410,7 +411,7 @@ def walk(sc, rng, length, res):
         older.append(ref.current_state)
         if len(older) > 8:
             older.pop(0)
-        ops.append("1 " + " ".join(map(str, C.act_tokens(sc, a) + [C.fr(uval)])))
+        ops.append("1 " + " ".join(map(str, C.def_tokens(sc, a) + [C.fr(uval)])))
         snapshot("step", outs)
     res["cross_mode"] += [dict(what=w) for w in sorted(set(cross))]
     reqs = [f"E {fo} {len(ops)} " + " ".join(ops) for fo in (1, 0)]
